@@ -117,3 +117,24 @@ def register(reg):
     from pyvc.values import MCls
     reg.names['pickle'] = MNS('pickle', {'UnpicklingError': MCls('UnpicklingError'),
                                          'PicklingError': MCls('PicklingError')})
+
+
+def structural_signature_key(repo):
+    """the time-limited signature cache can never serve a result computed for another buffer version: its key is
+    None for path-less buffers and otherwise contains the re.Match object, which compares by identity"""
+    import ast
+    import os
+    from pyvc.verify import find_function
+    try:
+        t3 = ast.parse(open(os.path.join(repo, 'jedi/api/helpers.py'), encoding='utf-8').read())
+    except (OSError, SyntaxError) as e:
+        return [{'id': 'signature-key', 'kind': 'post', 'ok': None, 'label': 'cannot parse helpers.py: %s' % e}]
+    cs = find_function(t3, 'cache_signatures')
+    s3 = ' '.join(ast.unparse(cs).split()) if cs else ''
+    ok3 = cs is not None and 'before_bracket = re.match(' in s3 and ', whole, re.DOTALL)' in s3 \
+        and 'if module_path is None: yield None' in s3 \
+        and 'yield (module_path, before_bracket, bracket_leaf.start_pos)' in s3
+    return [{'id': 'signature-key', 'kind': 'post', 'ok': ok3 if cs else None,
+             'label': 'the signature cache key is None for path-less buffers and otherwise contains the re.Match '
+                      'object (compared by identity): a key of one call never equals the key of another, so no '
+                      'stale signature (parameters, positions, line code) can be served'}]
